@@ -129,6 +129,10 @@ def build(df, emb, mc, dims, bc, nv, vdims, mapping, arr, valid=None, unit=None,
         first = [f"t{c}" for c in range(nv)]
         if mapping:
             mapping = {first[vdims.index(k)]: v for k, v in mapping.items()}
+    if mapping and len(mapping) > 1 and (sum(mc["n"]) + nv) % 2 == 0:
+        # a mapping is a dictionary: the order in which its keys are written must not matter (seeded change C05-2:
+        # relabelling paired the new labels with the mapping's values in insertion order)
+        mapping = dict(reversed(list(mapping.items())))
     car = dict(n=mc["n"], c=mc["c"], lo=mc["lo"], axis=0, dims=tuple(dims), bc=bc, nv=nv, vdims=first, unit=unit,
                dtype="f8", mapping=mapping)
     mesh = pr.build_mesh(df, emb, car)
